@@ -2100,4 +2100,205 @@ theorem intersectsM_lineString_point (cs : List Pt) (c : Pt) :
     · simp [he, hon, PosAcc.result]
     · simp [he, hon, PosAcc.result]
 
+/-! ### 5c. a Point on the left: `within` -/
+
+theorem vertex_atom_of_pt_left {pa pb : Parts} {c : Pt} (hc : c ∈ pa.pts) :
+    (⟨.zero, locateParts pa c, locateParts pb c⟩ : Atom) ∈ atomsOf pa pb := by
+  unfold atomsOf
+  simp only
+  apply List.mem_append_left
+  apply List.mem_map.mpr
+  refine ⟨c, mem_dedupPts ?_, rfl⟩
+  simp [hc]
+
+/-- rows Interior and Boundary of a Point on the left -/
+theorem relate_point_cell_left (pb : Parts) (c : Pt) (X Y : Pos) (hX : X ≠ .outside) :
+    (relateParts ⟨[c], [], []⟩ pb).get X Y ≠ .empty ↔ (X = .inside ∧ locateParts pb c = Y) := by
+  rw [relateParts_eq, IM.get_set, if_neg (by tauto),
+    fold_get_ne_empty _ _ _ _ (fun a h => atoms_dim_ne_empty h)]
+  have h0 : IM.empty.get X Y = .empty := by cases X <;> cases Y <;> rfl
+  have hpt : ∀ v : Pt, locateParts ⟨[c], [], []⟩ v = X → locateParts pb v = Y →
+      X = .inside ∧ locateParts pb c = Y := by
+    intro v h1 h2
+    rw [locateParts_point] at h1
+    by_cases hv : v = c
+    · rw [if_pos hv] at h1; rw [← hv]; exact ⟨h1.symm, h2⟩
+    · rw [if_neg hv] at h1; exact absurd h1.symm hX
+  constructor
+  · rintro (h | ⟨x, hx, h1, h2⟩)
+    · exact absurd h0 h
+    · rcases mem_atomsOf hx with ⟨v, e⟩ | ⟨v, e⟩ | ⟨l, e⟩
+      · rw [e] at h1 h2; exact hpt v h1 h2
+      · rw [e] at h1 h2; exact hpt v h1 h2
+      · rw [e] at h1
+        simp only at h1
+        rw [locateFace_point] at h1
+        exact absurd h1.symm hX
+  · rintro ⟨hX', hY⟩
+    right
+    refine ⟨_, vertex_atom_of_pt_left (pa := ⟨[c], [], []⟩) (pb := pb) (c := c) (by simp), ?_, hY⟩
+    simp only
+    rw [locateParts_point, if_pos rfl, hX']
+
+/-- **`within` of a Point, on the specification**: the mask `T*F**F***` on the DE-9IM
+specification of `(Point c, A)` holds exactly when `c` is located in the interior of `A`. -/
+theorem isWithin_relate_point (a : Geom) (c : Pt) :
+    Gen.isWithin (relateSpec (.point c) a) = (locate a c == .inside) := by
+  have hr : relateSpec (.point c) a = relateParts ⟨[c], [], []⟩ (parts a) := rfl
+  have hii := relate_point_cell_left (parts a) c .inside .inside (by decide)
+  have hie := relate_point_cell_left (parts a) c .inside .outside (by decide)
+  have hbe := relate_point_cell_left (parts a) c .onBoundary .outside (by decide)
+  rw [hr]
+  unfold Gen.isWithin locate
+  change ((relateParts ⟨[c], [], []⟩ (parts a)).get .inside .inside != .empty &&
+    (relateParts ⟨[c], [], []⟩ (parts a)).get .inside .outside == .empty &&
+    (relateParts ⟨[c], [], []⟩ (parts a)).get .onBoundary .outside == .empty) = _
+  have e3 : (relateParts ⟨[c], [], []⟩ (parts a)).get .onBoundary .outside = .empty := by
+    by_contra h
+    have := (hbe.mp h).1
+    cases this
+  rw [e3]
+  cases hl : locateParts (parts a) c with
+  | inside =>
+    have e1 : (relateParts ⟨[c], [], []⟩ (parts a)).get .inside .inside ≠ .empty := hii.mpr ⟨rfl, hl⟩
+    have e2 : (relateParts ⟨[c], [], []⟩ (parts a)).get .inside .outside = .empty := by
+      by_contra h
+      have := (hie.mp h).2
+      rw [hl] at this; cases this
+    rw [e2]
+    simp [e1]
+  | onBoundary =>
+    have e1 : (relateParts ⟨[c], [], []⟩ (parts a)).get .inside .inside = .empty := by
+      by_contra h
+      have := (hii.mp h).2
+      rw [hl] at this; cases this
+    rw [e1]; rfl
+  | outside =>
+    have e1 : (relateParts ⟨[c], [], []⟩ (parts a)).get .inside .inside = .empty := by
+      by_contra h
+      have := (hii.mp h).2
+      rw [hl] at this; cases this
+    rw [e1]; rfl
+
+/-- `Point.is_within(A)` returns what its own mask gives on the specification whenever
+`A.contains(Point)` does. -/
+theorem withinM_point_of_contains (a : Geom) (c : Pt)
+    (h : containsM a (.point c) = Gen.isContains (relateSpec a (.point c))) :
+    withinM (.point c) a = Gen.isWithin (relateSpec (.point c) a) := by
+  rw [isWithin_relate_point, ← isContains_relate_point, ← h]; rfl
+
+/-! ### Triangle × Point intersects (non-degenerate triangle) -/
+
+theorem cross_cyc (p q r : Pt) : cross q r p = cross p q r := by unfold cross; ring
+
+/-- a point collinear with edge `ab` and weakly on the inner side of the other two edges of a
+non-degenerate triangle is on the edge -/
+theorem on_edge_of_weak {a b c p : Pt} (hD : cross a b c ≠ 0) (h0 : cross a b p = 0)
+    (hs : (0 ≤ cross b c p ∧ 0 ≤ cross c a p) ∨ (cross b c p ≤ 0 ∧ cross c a p ≤ 0)) :
+    lineCoord a b p = true := by
+  rw [lineCoord_iff]
+  have hsum := cross_sum a b c p
+  have hx := bary_x a b c p
+  have hy := bary_y a b c p
+  rw [h0] at hsum hx hy
+  have ht : 0 ≤ cross c a p / cross a b c ∧ cross c a p / cross a b c ≤ 1 := by
+    rcases hs with ⟨h1, h2⟩ | ⟨h1, h2⟩
+    · have hpos : 0 < cross a b c := lt_of_le_of_ne (by linarith) (Ne.symm hD)
+      exact ⟨div_nonneg h2 hpos.le, (div_le_one hpos).mpr (by linarith)⟩
+    · have hneg : cross a b c < 0 := lt_of_le_of_ne (by linarith) hD
+      exact ⟨div_nonneg_of_nonpos h2 hneg.le, (div_le_one_of_neg hneg).mpr (by linarith)⟩
+  refine ⟨cross c a p / cross a b c, ht.1, ht.2, ?_, ?_⟩
+  · field_simp
+    have : cross b c p = cross a b c - cross c a p := by linarith
+    rw [this] at hx
+    linarith
+  · field_simp
+    have : cross b c p = cross a b c - cross c a p := by linarith
+    rw [this] at hy
+    linarith
+
+/-- a point of edge `ab` is weakly on the inner side of the other two edges -/
+theorem weak_of_on_edge {a b c p : Pt} (h : lineCoord a b p = true) :
+    ∃ t : Rat, 0 ≤ t ∧ t ≤ 1 ∧ cross a b p = 0 ∧ cross b c p = (1 - t) * cross a b c ∧
+      cross c a p = t * cross a b c := by
+  have h0 := ((lineCoord_eq a b p).mp h).1
+  rw [lineCoord_iff] at h
+  obtain ⟨t, t0, t1, hx, hy⟩ := h
+  refine ⟨t, t0, t1, h0, ?_, ?_⟩
+  · unfold cross; rw [hx, hy]; ring
+  · unfold cross; rw [hx, hy]; ring
+
+/-- `Triangle: Intersects<Coord>` (sorted-orientation window test) is "position not `Outside`" for
+a non-degenerate triangle -/
+theorem triCoord_eq_pos (a b c p : Pt) (hD : cross a b c ≠ 0) :
+    triCoord a b c p = (coordPos (.triangle a b c) p != .outside) := by
+  simp only [coordPos, calcPos, calcTriangle_eq]
+  have e2 : cross b c a = cross a b c := by unfold cross; ring
+  have e3 : cross c a b = cross a b c := by unfold cross; ring
+  have hD2 : cross b c a ≠ 0 := by rw [e2]; exact hD
+  have hD3 : cross c a b ≠ 0 := by rw [e3]; exact hD
+  by_cases hb : (lineCoord a b p || lineCoord b c p || lineCoord c a p) = true
+  · rw [if_pos hb]
+    have : triCoord a b c p = true := by
+      rw [triCoord_iff_weak]
+      simp only [Bool.or_eq_true] at hb
+      rcases hb with (hb | hb) | hb
+      · obtain ⟨t, t0, t1, h0, h1, h2⟩ := weak_of_on_edge (c := c) hb
+        rw [h0, h1, h2]
+        rcases le_total 0 (cross a b c) with hs | hs
+        · left; exact ⟨le_refl _, mul_nonneg (by linarith) hs, mul_nonneg t0 hs⟩
+        · right; exact ⟨le_refl _, mul_nonpos_of_nonneg_of_nonpos (by linarith) hs,
+            mul_nonpos_of_nonneg_of_nonpos t0 hs⟩
+      · obtain ⟨t, t0, t1, h0, h1, h2⟩ := weak_of_on_edge (c := a) hb
+        rw [e2] at h1 h2
+        rw [h0, h1, h2]
+        rcases le_total 0 (cross a b c) with hs | hs
+        · left; exact ⟨mul_nonneg t0 hs, le_refl _, mul_nonneg (by linarith) hs⟩
+        · right; exact ⟨mul_nonpos_of_nonneg_of_nonpos t0 hs, le_refl _,
+            mul_nonpos_of_nonneg_of_nonpos (by linarith) hs⟩
+      · obtain ⟨t, t0, t1, h0, h1, h2⟩ := weak_of_on_edge (c := b) hb
+        rw [e3] at h1 h2
+        rw [h0, h1, h2]
+        rcases le_total 0 (cross a b c) with hs | hs
+        · left; exact ⟨mul_nonneg (by linarith) hs, mul_nonneg t0 hs, le_refl _⟩
+        · right; exact ⟨mul_nonpos_of_nonneg_of_nonpos (by linarith) hs,
+            mul_nonpos_of_nonneg_of_nonpos t0 hs, le_refl _⟩
+    rw [this]; simp [PosAcc.result]
+  · rw [if_neg hb]
+    simp only [Bool.or_eq_true, not_or] at hb
+    obtain ⟨⟨n1, n2⟩, n3⟩ := hb
+    by_cases ht : triContainsCoord a b c p = true
+    · rw [triContainsCoord_imp_triCoord a b c p ht, if_pos ht]; simp [PosAcc.result]
+    · rw [if_neg ht]
+      have : ¬ triCoord a b c p = true := by
+        intro hw
+        rw [triCoord_iff_weak] at hw
+        rw [triContainsCoord_iff] at ht
+        have c1 : cross a b p ≠ 0 := fun h0 => n1 (on_edge_of_weak hD h0 (by
+          rcases hw with ⟨_, h2, h3⟩ | ⟨_, h2, h3⟩
+          · exact Or.inl ⟨h2, h3⟩
+          · exact Or.inr ⟨h2, h3⟩))
+        have c2 : cross b c p ≠ 0 := fun h0 => n2 (on_edge_of_weak hD2 h0 (by
+          rcases hw with ⟨h1, _, h3⟩ | ⟨h1, _, h3⟩
+          · exact Or.inl ⟨h3, h1⟩
+          · exact Or.inr ⟨h3, h1⟩))
+        have c3 : cross c a p ≠ 0 := fun h0 => n3 (on_edge_of_weak hD3 h0 (by
+          rcases hw with ⟨h1, h2, _⟩ | ⟨h1, h2, _⟩
+          · exact Or.inl ⟨h1, h2⟩
+          · exact Or.inr ⟨h1, h2⟩))
+        apply ht
+        rcases hw with ⟨h1, h2, h3⟩ | ⟨h1, h2, h3⟩
+        · exact Or.inl ⟨lt_of_le_of_ne h1 (Ne.symm c1), lt_of_le_of_ne h2 (Ne.symm c2),
+            lt_of_le_of_ne h3 (Ne.symm c3)⟩
+        · exact Or.inr ⟨lt_of_le_of_ne h1 c1, lt_of_le_of_ne h2 c2, lt_of_le_of_ne h3 c3⟩
+      have : triCoord a b c p = false := by simpa using this
+      rw [this]; simp [PosAcc.result]
+
+/-- Triangle × Point, non-degenerate triangle -/
+theorem intersectsM_triangle_point (a b c p : Pt) (hD : cross a b c ≠ 0) :
+    intersectsM (.triangle a b c) (.point p) =
+      Gen.isIntersects (relateSpec (.triangle a b c) (.point p)) := by
+  rw [isIntersects_relate_point, ← coordPos_triangle_eq_locate, ← triCoord_eq_pos a b c p hD]
+  simp only [intersectsM, vsPiece, isxFlat, coordX]
+
 end Geo.Proofs.Loc
